@@ -141,6 +141,18 @@ fn example_units() -> Vec<Unit> {
     }).collect()
 }
 
+/// permanent regression inputs (findings of earlier runs), /verif/corpus/C08/*.cairo
+fn corpus_units() -> Vec<Unit> {
+    let dir = std::env::var("C08_CORPUS").unwrap_or_else(|_| "/verif/corpus/C08".to_string());
+    let mut fs: Vec<PathBuf> = std::fs::read_dir(&dir).map(|r| r.filter_map(|e| e.ok().map(|e| e.path())).collect()).unwrap_or_default();
+    fs.retain(|p| p.extension().map(|x| x == "cairo").unwrap_or(false));
+    fs.sort();
+    fs.iter().filter_map(|f| {
+        let text = std::fs::read_to_string(f).ok()?;
+        Some(Unit { name: format!("rg_{}", f.file_stem().unwrap().to_string_lossy()), origin: f.display().to_string(), text, inject: None, gen_base: false })
+    }).collect()
+}
+
 fn generated_units(rng: &mut Rng, n: usize, shapes: &mut BTreeMap<String, usize>) -> Vec<Unit> {
     let mut res = vec![];
     for i in 0..n {
@@ -308,6 +320,9 @@ fn main() {
     let n_td = units.len();
     units.extend(example_units());
     let n_ex = units.len() - n_td;
+    let corpus = corpus_units();
+    let n_corpus = corpus.len();
+    units.extend(corpus);
     units.extend(generated_units(&mut rng, if thorough { 900 } else { 110 }, &mut shapes));
     let progs = out.join("progs");
     let _ = std::fs::remove_dir_all(&progs);
@@ -333,6 +348,7 @@ fn main() {
     let mut n_base = 0;
     let mut n_base_accepted = 0;
     let mut accepted_all = 0;
+    let mut n_corpus_accepted = 0;
     for (i, u) in units.iter().enumerate() {
         let mut acc = true;
         for (k, r) in results.iter().enumerate() {
@@ -355,6 +371,7 @@ fn main() {
             if results[0].diags[i].msgs.iter().any(|m| m.contains(want)) { n_inj_kind_ok += 1; }
         }
         if u.gen_base { n_base += 1; if acc { n_base_accepted += 1; } }
+        if u.name.starts_with("rg_") && acc { n_corpus_accepted += 1; }
         if acc { accepted_all += 1; }
     }
     for (k, r) in results.iter().enumerate() {
@@ -428,7 +445,7 @@ fn main() {
         "units_with_errors": r.diags.iter().filter(|d| d.has_errors).count(),
     })).collect();
     let summary = json!({
-        "units": units.len(), "test_data_units": n_td, "example_units": n_ex,
+        "units": units.len(), "test_data_units": n_td, "example_units": n_ex, "regression_corpus_units": n_corpus, "regression_corpus_units_accepted_and_compiled_in_all_configs": n_corpus_accepted,
         "generated_base": n_base, "generated_base_accepted_in_all_configs": n_base_accepted,
         "injected_units": n_inj, "injected_with_expected_diagnostic_kind": n_inj_kind_ok,
         "units_accepted_in_all_configs": accepted_all,
